@@ -69,7 +69,10 @@ def handle (j : Json) : Json :=
         let o := jobj j "obs"
         let obs : Obs := { exit := jnat o "exit", processed := toks o "processed", started := toks o "started",
                            ran := toks o "ran" }
-        [("monitor", ofStrs (monitor ts args dflt single obs))]
+        let chunked := match planGen ts true args dflt single with
+          | .ok p => chunkedB p.tasks p.sel obs.started
+          | .error _ => true
+        [("monitor", ofStrs (monitor ts args dflt single obs)), ("chunked", Json.bool chunked)]
       else []
     Json.mkObj (base ++ mon)
 
